@@ -176,6 +176,10 @@ func parseContracts(file string, pkgDir string) ([]*FuncSpec, error) {
 			}
 			lastExpr = &c.Expr
 		case "assigns":
+			if strings.HasPrefix(rest, "global ") {
+				cur.AssignGlobals = append(cur.AssignGlobals, strings.Fields(rest)[1:]...)
+				continue
+			}
 			for _, a := range splitTop(rest) {
 				cur.Assigns = append(cur.Assigns, a)
 			}
@@ -519,6 +523,13 @@ func genGhost(fset *token.FileSet, dir string, specs []*FuncSpec) ([]string, err
 		if len(sp.Assigns) > 0 {
 			fmt.Fprintf(&body, "\tvc.Assigns(%s)\n", strings.Join(sp.Assigns, ", "))
 		}
+		if len(sp.AssignGlobals) > 0 {
+			var q []string
+			for _, g := range sp.AssignGlobals {
+				q = append(q, strconv.Quote(g))
+			}
+			fmt.Fprintf(&body, "\tvc.AssignsGlobal(%s)\n", strings.Join(q, ", "))
+		}
 		body.WriteString("\tvc.CallSite()\n")
 		call := fmt.Sprintf("%s%s(%s)", recvCall, fd.Name.Name, strings.Join(argNames, ", "))
 		if len(resNames) > 0 {
@@ -552,6 +563,7 @@ func genGhost(fset *token.FileSet, dir string, specs []*FuncSpec) ([]string, err
 		}
 	}
 	text := body.String()
+	noStr := regexp.MustCompile(`"(\\.|[^"\\])*"`).ReplaceAllString(text, `""`)
 	var hdr strings.Builder
 	fmt.Fprintf(&hdr, "//go:build verif\n\n// Code generated by govc from zz_contracts_verif.go. DO NOT EDIT.\n\npackage %s\n\nimport (\n\tvc \"vspec/vc\"\n", pkgName)
 	var names []string
@@ -561,7 +573,7 @@ func genGhost(fset *token.FileSet, dir string, specs []*FuncSpec) ([]string, err
 	sort.Strings(names)
 	// spec packages are always importable as vspec/<name>
 	for _, sp := range specPackages {
-		if strings.Contains(text, sp+".") {
+		if strings.Contains(noStr, sp+".") {
 			if _, clash := imports[sp]; !clash {
 				fmt.Fprintf(&hdr, "\t%s \"vspec/%s\"\n", sp, sp)
 			}
@@ -571,7 +583,7 @@ func genGhost(fset *token.FileSet, dir string, specs []*FuncSpec) ([]string, err
 		if n == "vc" || n == "." || n == "_" {
 			continue
 		}
-		if regexp.MustCompile(`\b` + regexp.QuoteMeta(n) + `\.`).MatchString(text) {
+		if regexp.MustCompile(`\b` + regexp.QuoteMeta(n) + `\.`).MatchString(noStr) {
 			fmt.Fprintf(&hdr, "\t%s %q\n", n, imports[n])
 		}
 	}
@@ -985,4 +997,10 @@ func (x *Exec) importObject(from *Exec, heap *Heap, o *Object) *Object {
 	}
 	x.constObjs[n] = x.importValue(from, heap, val)
 	return n
+}
+
+func (p *Loaded) allPackages() []*packages.Package {
+	var out []*packages.Package
+	packages.Visit(p.Pkgs, nil, func(pk *packages.Package) { out = append(out, pk) })
+	return out
 }
